@@ -765,6 +765,10 @@ def object_construct(expression: exp.Expression) -> exp.Expression:
 
             non_null_expressions.append(e)
 
+        if not non_null_expressions:
+            # duckdb has no empty struct literal
+            return exp.Anonymous(this="JSON", expressions=[exp.Literal(this="{}", is_string=True)])
+
         new_struct = expression.copy()
         new_struct.set("expressions", non_null_expressions)
         return exp.Anonymous(this="TO_JSON", expressions=[new_struct])
